@@ -14,11 +14,61 @@ from __future__ import annotations
 
 import asyncio
 import inspect
-from collections.abc import Iterable
+from collections.abc import Iterable, MutableSet
 
 
 class Deadlock(Exception):
     _vf_deadlock = True
+
+
+class OrderedSet(MutableSet):
+    """Insertion-ordered set. ``asyncio.wait`` returns plain sets of tasks, whose iteration order
+    depends on object addresses: code that loops over ``finished`` handles tokens that arrived in the
+    same loop turn in an arbitrary order. On the deterministic loop the two sets are ordered by task
+    creation (and ``done`` is rotated by the case's schedule), so that this choice too is a function
+    of the case - every such order is one a real run can exhibit."""
+
+    def __init__(self, it=()):
+        self._d = dict.fromkeys(it)
+
+    def __contains__(self, x):
+        return x in self._d
+
+    def __iter__(self):
+        return iter(list(self._d))
+
+    def __len__(self):
+        return len(self._d)
+
+    def add(self, x):
+        self._d[x] = None
+
+    def discard(self, x):
+        self._d.pop(x, None)
+
+    def __repr__(self):
+        return f"OrderedSet({list(self._d)!r})"
+
+
+_real_wait = asyncio.wait
+
+
+async def _ordered_wait(fs, *, timeout=None, return_when=asyncio.ALL_COMPLETED):
+    fs = list(fs)
+    done, pending = await _real_wait(fs, timeout=timeout, return_when=return_when)
+    loop = asyncio.get_running_loop()
+    if not isinstance(loop, DetLoop):
+        return done, pending
+    key = lambda t: getattr(t, "_vf_seq", 0)  # noqa: E731
+    d = sorted(done, key=key)
+    if len(d) > 1 and loop.wait_chaos is not None:
+        k = loop.wait_chaos.draw() % len(d)
+        d = d[k:] + d[:k]
+    return OrderedSet(d), OrderedSet(sorted(pending, key=key))
+
+
+asyncio.wait = _ordered_wait
+asyncio.tasks.wait = _ordered_wait
 
 
 class DetLoop(asyncio.SelectorEventLoop):
@@ -31,6 +81,15 @@ class DetLoop(asyncio.SelectorEventLoop):
         self.detect = True
         self.turns = 0
         self.max_turns = 20_000_000
+        self.wait_chaos: Chaos | None = None  # rotates the order of simultaneously finished tasks
+        self._task_seq = 0
+        self.set_task_factory(self._factory)
+
+    def _factory(self, loop, coro, **kw):
+        task = asyncio.Task(coro, loop=loop, **kw)
+        self._task_seq += 1
+        task._vf_seq = self._task_seq
+        return task
 
     def time(self) -> float:
         return self._vtime
@@ -134,6 +193,13 @@ class Chaos:
         self.s = list(schedule)
         self.i = 0
         self.n = 0
+        try:
+            loop = asyncio.get_running_loop()
+            if isinstance(loop, DetLoop) and self.s:
+                loop.wait_chaos = Chaos.__new__(Chaos)
+                loop.wait_chaos.s, loop.wait_chaos.i, loop.wait_chaos.n = list(reversed(self.s)), 0, 0
+        except RuntimeError:
+            pass
 
     async def point(self) -> None:
         self.n += 1
